@@ -308,6 +308,28 @@ def run(tier, seed, replay=None):
     rep.absorb(run_cases(child_dfs, cases, watchdog=1800), 'dfs')
     rcases = [{'seed': seed * 65537 + i, 'n': 4000 if thorough else 600, 'maxlen': 40 if thorough else 26} for i in range(32)]
     rep.absorb(run_cases(child_random, rcases, watchdog=1800), 'random')
+    # (2) the same monitor on real hand-over traces of the full server, and membership of those traces in the environment model
+    from exv.props.c07 import gen_cases
+    from exv.sysscen import child as sys_child
+    sres = run_cases(sys_child, gen_cases(tier, seed, judge=('C07',), n=24 if not thorough else 200), watchdog=900)
+    for r in sres:
+        if r is None or r.status != 'ok':
+            rep.inconc(f'full-system trace run failed: {r and r.status}')
+            continue
+        v = r.value
+        for k in ('notif_handovers_checked_against_env_model', 'notif_handover_outside_env_model', 'c20_joins_on_real_traces',
+                  'notifications_issued'):
+            rep.count('real_trace_' + k, v['counters'].get(k, 0))
+        for viol in v['violations']:
+            if viol['key'].startswith('c20-on-real-trace/'):
+                rep.violations.append(dict(viol, key=viol['key'].split('/', 1)[1]))
+        rep.sigs.update(s_ if isinstance(s_, str) else digest(s_) for s_ in v.get('sigs') or ())
+        rep.evaluations += 1
+    if rep.counters['real_trace_notif_handover_outside_env_model']:
+        rep.inconc(f'{rep.counters["real_trace_notif_handover_outside_env_model"]} real hand-over(s) fall outside the environment model: '
+                   'the enumerated word set is too narrow')
+    rep.floor('real_trace_handovers_checked', rep.counters['real_trace_notif_handovers_checked_against_env_model'], 300)
+    rep.floor('real_trace_joins', rep.counters['real_trace_c20_joins_on_real_traces'], 100)
     rep.exhaustive = True
     rep.sample({'word': [('F', 7), ('M', 7), ('B', 8), ('M', 8)],
                 'meaning': 'F=flush only to x, B=flush+on_block({token},x), M=on_mempool({token}) at the DB height, '
@@ -321,7 +343,8 @@ def run(tier, seed, replay=None):
              'executed on the real Notifications object by DFS with state copies; unique token per hand-over; online monitor: '
              '(a) notify(h) only after on_mempool(h) and on_block(h)/start(h); (b) at every join step (latest block report, '
              'latest refresh and DB height all equal) every token handed over at or before the earlier of the two latest '
-             'reports is in some notification. Plus random words up to length 40. distinct = explored subtrees (2-op prefixes) '
+             'reports is in some notification. Plus random words up to length 40, and the same monitor attached to the real hand-over traces '
+             'of full-server runs, each real hand-over also checked for membership in the environment model. distinct = explored subtrees (2-op prefixes) '
              '+ random batches; words counted in monitor_counters',
         assumptions=['environment model: on_block only right after a flush to that height; on_mempool only at a height the '
                      'DB is at, or was at since the previous refresh (validated against real traces in the C07 runs)'])
